@@ -608,6 +608,15 @@ func (w *World) oracleSched() {
 
 // ---------------------------------------------------------------- C18
 
+func firstNonASCIILine(b []byte) string {
+	for _, ln := range strings.Split(string(b), "\n") {
+		if !isASCII(ln) {
+			return strings.TrimSpace(ln)
+		}
+	}
+	return ""
+}
+
 func trimCRLF(b []byte) []byte { return bytes.TrimRight(b, "\r\n") }
 
 func (w *World) oracleReports() {
@@ -652,6 +661,11 @@ func (w *World) oracleReports() {
 		}
 		if rep.Parts[0].ContentType != "text/plain" || rep.Parts[1].ContentType != wantDS || rep.Parts[2].ContentType != wantHdr {
 			s.Violate("C18/malformed/part-types", "report dsn%d part types %s, %s, %s (want text/plain, %s, %s)", tx.N, rep.Parts[0].ContentType, rep.Parts[1].ContentType, rep.Parts[2].ContentType, wantDS, wantHdr)
+		}
+		if !m.UTF8 && !isASCII(string(rep.Parts[1].Data)) {
+			// RFC 3464 fields of a report for a message without SMTPUTF8
+			// (message/delivery-status, address type rfc822) are 7-bit
+			s.Violate("C18/malformed/non-ascii-status-part", "report dsn%d for a message without SMTPUTF8 has non-ASCII bytes in its message/delivery-status part: %q", tx.N, firstNonASCIILine(rep.Parts[1].Data))
 		}
 		if m.From == "" {
 			s.Violate("C18/report-for-null-sender", "report dsn%d generated for %s whose sender is the null address", tx.N, m.ID)
